@@ -45,6 +45,9 @@ CHECKS = {
  "C13": ("crash monitor: recover() around every call + child-process exit status and journal, over a directed catalogue, grammar-aware rule mutation and random bytes",
          "Every public entry point is called with a complete catalogue of nil / typed-nil / nested-nil / wrong-kind inputs, with every rule key under 80 argument mutations (missing, foreign, unbalanced quotes and brackets, 0-6 separators, invalid regex, overflowing bounds, 70 KB, NUL, invalid UTF-8) on values of every kind, and with random bytes as rule text on random run-time synthesised object graphs. Any panic or process-fatal error is a violation, signed by entry point + innermost library function + normalised message.",
          "Excludes cyclic graphs, panicking user callbacks and reuse of a consumed validator, as the property does; only executed inputs are judged.", "§3 C13"),
+ "C08": ("relational monitor across child processes: one call history replayed under 14 cache configurations / call orders, per-call comparison with an always-miss (history-free) baseline",
+         "The same seeded history of ValidateStruct / StructForFn / Struct calls (types with independent rule sets under three tag names; A-then-B, A-B-A, override-then-plain patterns; sweeps over 620 one-off types that overflow a 512-entry cache) is executed in child processes that differ only in the cache installed through SetStructTypeCache (default, LRU of capacity 512/0/1/2/3/8, sync.Map, always-miss, amnesiac) or in call order (reversed, doubled). Every call must return the same clause list in every child. Instrumented caches report hits, misses, evictions and re-analyses actually observed.",
+         "Clauses compared as sorted lists; no Go maps inside values; the reference validator is only used to say which side is wrong in a witness.", "§3 C08"),
 }
 
 NOT_YET = "monitor not built yet in this round (planned, see DESIGN.md §3)"
